@@ -56,6 +56,8 @@ def plans(draw):
     start = t + draw(st.sampled_from([2, 5, 11, 33])) * 1000 + draw(st.integers(0, 999))
     dur = draw(st.sampled_from([3, 8, 20, 45, 90, 150])) * 1000 + draw(st.integers(0, 999))
     kind = draw(st.sampled_from(['reset', 'reset', 'silent'])) if stack == 'thriftmux' else draw(st.sampled_from(['reset', 'reset', 'hang']))
+    if mode == 'staggered' and kind == 'hang':
+      kind = 'reset'      # endpoints that go on hanging while others are back make calls time out legitimately
     phases.append([start, start + dur, kind])
     t = start + dur
   stagger = draw(st.sampled_from([7000, 20000])) if mode == 'staggered' else 0
@@ -77,7 +79,9 @@ def plans(draw):
   return {'close_on_error': close_on_error, 'affected': affected, 'stagger_ms': stagger, 'stagger_order': stagger_order, 'refuse_delay_ms': refuse_delay,
           'close_on_connect': close_on_connect,'seed': draw(st.integers(0, 2 ** 16)), 'stack': stack, 'balancer': balancer, 'resurrector': res,
           'ports': ports, 'period_ms': period, 'phases': phases, 'end_ms': end, 'close_at': close_at,
-          'pool_max': draw(st.sampled_from([None, 1, 2])) if stack == 'thrift' else None}
+          'pool_max': draw(st.sampled_from([None, 1, 2])) if stack == 'thrift' else None,
+          # two callers issue their calls at the same instants: the second needs a further pooled connection
+          'pairs': False}
 
 
 def strategy(tier):
@@ -114,6 +118,9 @@ def to_world(plan):
   while t < plan['end_ms']:
     calls.append({'at': t, 'method': 'hi', 'arg': 'c%d' % k, 'timeout_ms': None, 'via_dispatcher': False})
     k += 1
+    if plan.get('pairs'):
+      calls.append({'at': t, 'method': 'hi', 'arg': 'c%d' % k, 'timeout_ms': None, 'via_dispatcher': False})
+      k += 1
     t += plan['period_ms']
   return {
       'seed': plan['seed'], 'stack': plan['stack'], 'iface': 'hello', 'client_id': None,
@@ -150,13 +157,24 @@ def execute(plan):
     if tr.close_seq is not None:
       late = [e for e in net.log if e[2] == 'connect' and e[0] > tr.close_seq]
       # a call that was in flight on a serial connection when the client was closed may reach its deadline afterwards;
-      # the transport's in-place reconnect is then cut off the moment the connection is handed back to the closed pool:
-      # an attempt that never got an outcome (accepted / refused / timed out) is not held against the client
-      outcome = set(e[3] for e in net.log if e[2] in ('connected', 'refused', 'connect_timeout'))
-      aborted = [e for e in late if e[3] not in outcome]
-      if aborted:
+      # the transport's in-place reconnect is then cut off when the connection is handed back to the closed pool.
+      # Not held against the client: an attempt made within one call timeout of the close that is over within 5 ms of its start - it never got an outcome
+      # (aborted), was refused at once, or was accepted and closed again at once
+      def over_at_once(e):
+        cid, t0_ = e[3], e[1]
+        if t0_ > close_t + T_MS / 1000.0 + 0.05:
+          return False          # no call that was in flight at close time can still be around
+        evs = [(x[1], x[2]) for x in net.log if x[3] == cid and x[0] > e[0] and x[2] in ('connected', 'refused', 'connect_timeout', 'close')]
+        if not evs:
+          return True
+        if evs[0][1] in ('refused', 'connect_timeout'):
+          return evs[0][0] - t0_ <= 0.005
+        closes_ = [t_ for t_, k_ in evs if k_ == 'close']
+        return bool(closes_) and closes_[0] - t0_ <= 0.005
+      cut_off = [e for e in late if over_at_once(e)]
+      if cut_off:
         flags.add('reconnect_of_inflight_call_cut_off_by_close')
-      late = [e for e in late if e[3] in outcome]
+      late = [e for e in late if not over_at_once(e)]
       if late:
         raise Violation(ID, 'connect-after-close', 'connect attempt to %r %.1f s after DispatcherClose()' % (late[0][4], late[0][1] - close_t))
     connects = dict((p, []) for p in ports)       # port -> [(time, accepted?)]
@@ -184,8 +202,12 @@ def execute(plan):
       if kind == 'hang':
         # a hanging server is only known to be down once a reconnect (made after a call timed out) has been refused;
         # until then calls time out, or find their connection still busy reconnecting
-        refused = [e[1] for e in net.log if e[2] in ('refused', 'connect_timeout') and e[1] > D]
-        D_known = (min(refused) + 0.002) if refused else R_eff
+        first_refused = {}
+        for e in net.log:
+          if e[2] in ('refused', 'connect_timeout') and e[1] > D and e[3] in by_cid:
+            first_refused.setdefault(by_cid[e[3]][1], e[1])
+        # ... and that for every endpoint: each one is found out separately
+        D_known = (max(first_refused.values()) + 0.002) if len(first_refused) == len(ports) else R_eff
       during = [r for r in calls if max(D + 0.05, D_known) <= r.issued_at < R_eff - 0.01 and (close_t is None or r.issued_at < close_t)]
       # when was the fault observed?
       if kind == 'silent':
@@ -222,6 +244,7 @@ def execute(plan):
         never_connected = [p for p in ports if not [c for c in live_at_D if by_cid[c][1] == p]]
         allowed = len(ports) if plan['stack'] == 'thrift' else len(never_connected)
         used = 0
+        fault_times = [t_ for name_, lvl_, msg_, t_ in W.log.records if 'Resurrector' in name_ and msg_.startswith('Attempting to reopen')]
         # connect attempts and how long each took: (start, end)
         inflight = []
         starts_ = {}
@@ -243,6 +266,8 @@ def execute(plan):
             continue
           if not fast and [1 for (t0_, t1_) in inflight if t0_ - 0.001 <= ct and r.issued_at <= t1_ + 0.001]:
             continue      # it was waiting for a connect attempt whose outcome was not known yet
+          if k == 'error' and 'ServiceClosedError' in repr(payload) and [1 for tf in fault_times if abs(ct - tf) <= 0.002]:
+            continue      # it sat in the pool (queued, or waiting for a connection) at the moment the endpoint was declared down
           used += 1
           if used > allowed:
             if not fast:
@@ -267,7 +292,15 @@ def execute(plan):
         later = [x[0] for x in starts[i + 1:] if x[1] == p]
         if later:
           t_end = min(t_end, later[0])
-        att = [t for (t, ok) in connects[p] if t_a + 0.01 < t < t_end and not ok]
+        # not a retry: the in-place reconnect of a serial transport whose call (sent before the endpoint was known to be
+        # down) has just timed out - it closes its old, established connection and dials again in the same instant
+        inplace = set()
+        old_conns = set(c for c, (t0_, port_, ok_) in by_cid.items() if port_ == p and ok_ and t0_ < t_a)
+        closes = [e[1] for e in net.log if e[2] == 'close' and e[3] in old_conns]
+        for (t, ok) in connects[p]:
+          if any(abs(t - tc) < 1e-5 for tc in closes):
+            inplace.add(t)
+        att = [t for (t, ok) in connects[p] if t_a + 0.01 < t < t_end and not ok and t not in inplace]
         if not att:
           continue
         obs_p = t_a
@@ -277,8 +310,9 @@ def execute(plan):
         for a, b in zip(gaps, gaps[1:]):
           if b < a - 0.05:
             raise Violation(ID, 'backoff-not-monotone', '%s: gap %.2f s after gap %.2f s' % (where, b, a))
+        slow = (plan.get('refuse_delay_ms') or 0) / 1000.0
         for g in gaps:
-          if g > max_w + 1.0:
+          if g > max_w + 1.0 + slow:
             raise Violation(ID, 'backoff-above-max', '%s: gap %.2f s' % (where, g))
           if g < init_w - 0.1:
             raise Violation(ID, 'retry-too-early', '%s: gap %.2f s is below the initial wait' % (where, g))
@@ -288,6 +322,20 @@ def execute(plan):
           flags.add('backoff_observed')
       # (c) recovery
       if R_eff == R and (close_t is None or close_t > R + max_w + 3) and not partial:
+        # a connect attempt that was started while the endpoint was down may only fail (slow refusal, connect
+        # timeout) after the endpoint is back: that late failure still takes the endpoint down once, so "reachable
+        # again" counts from the last such failure
+        begun = {}
+        late_fail = R
+        for sq, t_, k2, c2, _ in net.log:
+          if k2 == 'connect':
+            begun[c2] = t_
+          elif k2 in ('refused', 'connect_timeout') and c2 in begun and begun[c2] < R and t_ > R:
+            late_fail = max(late_fail, t_)
+        if late_fail > R:
+          flags.add('connect_begun_while_down_failed_after_recovery')
+        R_phase_end = R
+        R = late_fail
         if kind == 'silent':
           # a black-hole is only noticed by an unanswered ping (30-40 s period, 5 s timeout), possibly after the
           # endpoint answers again; a reconnect attempt in flight needs its own 5 s ping timeout to fail
@@ -295,7 +343,7 @@ def execute(plan):
         else:
           bound = R + max_w + 1.0 + period
         after = [r for r in calls if r.issued_at >= R]
-        nxt = [s_ for s_, e, k in plan['phases'] if base + s_ / 1000.0 > R]
+        nxt = [s_ for s_, e, k in plan['phases'] if base + s_ / 1000.0 > R_phase_end]
         horizon = min([base + s_ / 1000.0 for s_ in nxt] + ([close_t] if close_t else []) + [tr.end])
         ok = [r for r in after if r.first and r.first[1] == 'value' and r.issued_at < horizon]
         if horizon > bound + period:
